@@ -99,6 +99,16 @@ def check_model(m, X, P, est):
     if lin.shape != d.shape or not np.allclose(lin, d, rtol=1e-10, atol=1e-10):
         out.append(("decision_function_not_linear_model", [list(d.shape)], [list(lin.shape)]))
         return out
+    # a batch of one row is predicted like the same row inside a larger batch
+    for r in (0, len(P) // 2):
+        try:
+            one = np.asarray(m.predict(P[r:r + 1]))
+            if one.shape != (1,) or str(one[0]) != str(pred[r]):
+                out.append(("single_row_prediction_differs", dict(row=r, got=one.tolist()), str(pred[r])))
+                break
+        except Exception as e:
+            out.append(("single_row_prediction_differs", type(e).__name__ + ": " + str(e)[:80], str(pred[r])))
+            break
     if d.ndim == 1:
         sure = np.abs(d) > 1e-5
         exp = classes[(d > 0).astype(int)]
